@@ -256,6 +256,19 @@ pub fn gen_stack(rng: &mut Rng) -> BuiltStack {
         vias.push(ViaLayer { name: format!("via{}", i + 1), top: ViaTarget::Metal(i + 1), bot: ViaTarget::Metal(i), size: Xy::new(DbUnits(size.0 as isize), DbUnits(size.1 as isize)), raw: Some(key) });
         rvias.push(size);
     }
+    // one stack in three also has a contact layer: a via from the primitive (base) layers up to metal 0, of a size of its own and a raw
+    // layer of its own, listed first (bottom-up, the natural order), last, or in between. No assignment ever refers to it: nothing may be
+    // drawn on its layer (an element there is a `shape-on-unknown-layer`), and it may not stand in for a via between metals.
+    if rng.chance(1, 3) {
+        let key = layers.add(raw::Layer::new(49, "contact"));
+        let contact = ViaLayer { name: "contact".into(), top: ViaTarget::Metal(0), bot: ViaTarget::Primitive, size: Xy::new(DbUnits(2 * rng.range(9, 12) as isize), DbUnits(2 * rng.range(9, 12) as isize)), raw: Some(key) };
+        let at = match rng.below(3) {
+            0 => 0,
+            1 => vias.len(),
+            _ => rng.usize(vias.len() + 1),
+        };
+        vias.insert(at, contact);
+    }
     let stack = Stack { units: raw::Units::Nano, prim: PrimitiveLayer::new((px as isize, py as isize).into()), metals, vias, rawlayers: Some(Ptr::new(layers)), boundary_layer: Some(boundary) };
     BuiltStack { stack, r: RStack { px, py, metals: rmetals, vias: rvias }, metal_keys, via_keys, lx, ly }
 }
